@@ -127,6 +127,47 @@ check("C19", "exploration",
       "seam-log and snapshot oracle, read-back via the matching parser", "DESIGN.md §3 C19")
 
 
+check("C13", "exploration",
+      "Input and output modules (own renderer: classes with annotated attributes, functions/methods with 1..5 parameters, "
+      "defaults, self/cls, keyword-only, *args/**kwargs) on the simulated disk; histories of 1..3 sync_properties CLI "
+      "commands with 1..2 pairs over all valid dotted paths, wrap template and --input-eval on/off, black present/absent, a "
+      "rehearsed I/O fault / torn close / crash on ~30% of commands, every seam call of the last command enumerated on "
+      "flagged plans, all-pairs sweeps. D1 (always) input byte-identical and never opened for writing; D2 output parses; D3 "
+      "the selected location equals the one-location reference model; D4 everything else ast.dump-identical and the "
+      "parameter->default map unchanged; D5 (always) no other path written.",
+      "Sampled programs and pairs; attribute values lenient as in the design (statement is silent); listed known findings "
+      "delimit regions by machine-computed structural predicates (right-aligned defaults index, name-blind function lookup, "
+      "wrap applied in place, module docstring re-indented, stale _location).",
+      "deterministic simulation: Hypothesis histories + rehearsed/enumerated I/O faults, AST-diff against a one-location "
+      "reference model, seam-log effect monitor", "DESIGN.md §3 C13")
+
+check("C16", "exploration",
+      "Routes machine: generated SQLAlchemy models (explicit/inferred PK, single/multi-word names, 1..6 columns), routes "
+      "file(s) initially absent; histories of 1..6 gen_routes CLI commands (CRUD subsets, route prefixes, app names) with "
+      "openapi_bulk after each; reference model R = union of requested (model, op); error/torn-close/crash faults on the "
+      "write/append of the routes file with user restore. E0 only the named routes file is written; E1 JSON-serialisable; "
+      "E2 every $ref resolves; E3 request bodies defined; E4 path parameters declared; E5 operations exactly R; E6 every "
+      "route function keeps its decorator; E7 schema lists exactly the model's columns.",
+      "Sampled histories; multi-word-name handling is no stronger than sampling; F-C16-2 (title-cased schema key) is a "
+      "listed known finding; an operation already held in one routes file is never requested into a second one.",
+      "deterministic simulation: Hypothesis upsert histories over a persistent routes file + append faults, reference "
+      "model of requested operations", "DESIGN.md §3 C16")
+
+check("C17", "exploration",
+      "Effect monitor at the simulator's seams under an adversarial workload: payloads (calls, dunder chains, imports, "
+      "evaluator-global names, side-effecting module code) in defaults, type strings, prose, decorators, aimed at "
+      "sentinels (files, env var, harness attribute); every parser/emitter and doctrans, sync, sync_properties, gen-from-file "
+      "run under the audit seam, a third of them again with an injected exception or I/O error so error paths run. "
+      "Always: G1 no spawn/network event; G2 no import requested by input-derived code or of a payload module; G3 no "
+      "exec of input-derived code containing a call, import or dunder attribute; G4 write-mode opens within the declared "
+      "outputs (seam log and snapshot); G5 sentinels untouched. --input-eval and gen --prepend exempted only for the text "
+      "the user passed.",
+      "Sampled adversarial inputs; 'input-derived' is decided from code-object file names and requesting frames; the "
+      "monitor sees what CPython audits (open, import, exec, compile, os.system, subprocess, socket, ...).",
+      "deterministic simulation: audit-hook/open-seam effect monitor under seeded adversarial inputs with fault and "
+      "exception injection", "DESIGN.md §3 C17")
+
+
 def main():
     man = {
         "version": 1,
@@ -160,8 +201,7 @@ def main():
     print("MANIFEST.json: %d checks, %d not applicable" % (len(man["checks"]), len(man["not_applicable"])))
 
 
-PENDING = {k: "check under construction in this session (designed in DESIGN.md §3); not yet claimed"
-           for k in ("C13", "C16", "C17")}
+PENDING = {}
 
 if __name__ == "__main__":
     main()
